@@ -241,15 +241,15 @@ class Prop:
     run_fn = "run14"
     shard = 250
     rule = ("plain trees: every ordered forest with <= 3 nodes x every labeling over 2 strings x data_id in {default, 0, '', 'k', "
-            "hash(data)} that the tree accepts (quick: 3-node forests with {default, 0, ''} only); every forest with <= N nodes (N=5 "
+            "hash(data)} that the tree accepts (quick: 3-node forests with {default, 0} only); every forest with <= N nodes (N=5 "
             "quick, 6 thorough) x 6 labeling patterns (distinct strings; clones in different parents; explicit/falsy/default-valued ids; "
             "value-equal objects, tuples, ints, dataclasses; identity-hashed objects; '7' next to 7) x the 5 serialisation mappers (none / "
-            "set data in place / wrap / new dict keeping or dropping data_id) with the inverse deserialisation mapper (at N nodes: 2 of "
-            "the 5 mappers); trees under a calc_data_id hook; typed trees; emptied trees (clear, remove of the last top "
+            "set data in place / wrap / new dict keeping or dropping data_id) with the inverse deserialisation mapper (at N nodes: 1 (quick) or 2 "
+            "of the 5 mappers per tree); trees under a calc_data_id hook; typed trees; emptied trees (clear, remove of the last top "
             "node); seeded random trees (5..18 nodes quick, 5..30 thorough); 16 hand-written and malformed dict lists; Node.from_dict "
             "into every node of every forest <= 3 (thorough 4) nodes x 3 calc_data_id hooks x 6 item lists.  Every dump goes through "
             "json.dumps/json.loads before from_dict.  A case is one tree (or one dict list); distinct = distinct desc; non-trivial = >= 3 nodes")
-    exhaustive_note = ("all shapes <= 3 nodes x all labelings (2 strings x 5 data_id choices; quick: 3 choices at 3 nodes); "
+    exhaustive_note = ("all shapes <= 3 nodes x all labelings (2 strings x 5 data_id choices; quick: 2 choices at 3 nodes); "
                        "all shapes <= N nodes x 6 patterns x mappers (N=5 quick, 6 thorough)")
     assumptions = [
         "serialisation mappers are functions of the node's data object/ids and the dict passed in; deserialisation mappers read only item['data'] and do not mutate the item",
@@ -297,7 +297,7 @@ class Prop:
             return [(l, hs[l] if did == "HASH" else did) for l in range(len(univ)) for did in ids]
 
         full = choices((None, 0, "", "k", "HASH"))
-        small = choices((None, 0, "")) if tier == "quick" else full
+        small = choices((None, 0)) if tier == "quick" else full
         for n in range(0, nsmall + 1):
             for shape in H.forests(n):
                 for lab in itertools.product(full if n < 3 else small, repeat=n):
@@ -308,10 +308,15 @@ class Prop:
         nmax = 5 if tier == "quick" else 6
         pats = self.patterns()
         for n in range(1, nmax + 1):
-            for shape in H.forests(n):
+            for si, shape in enumerate(H.forests(n)):
                 for pi, (univ, labeler) in enumerate(pats):
                     nodes = B.shape_to_nodes(shape, labeler)
-                    kinds = SM_KINDS if n <= (4 if tier == "quick" else 5) else [SM_KINDS[(pi + n) % 5], "none"]
+                    if n <= (4 if tier == "quick" else 5):
+                        kinds = SM_KINDS
+                    elif tier == "quick":
+                        kinds = [SM_KINDS[(pi + si) % 5]]
+                    else:
+                        kinds = [SM_KINDS[(pi + si) % 4 + 1], "none"]
                     for sm in kinds:
                         d = dict(univ=univ, nodes=nodes, sm=sm)
                         if ok(d):
